@@ -927,6 +927,16 @@ def r5_first_column(repo, report):
             break
     names = {x.id for st in frag for x in ast.walk(st) if isinstance(x, ast.Name)}
     bounds = sorted({src(l.iter) for st in frag for l in ast.walk(st) if isinstance(l, ast.For)})
+    # every cell of the column is written: the column array is reused between calls, a cell that is not initialised keeps
+    # what the previous read left there and is read as a neighbour as soon as the band grows
+    mdefs = [n.targets[0].id for n in ast.walk(fn) if isinstance(n, ast.Assign) and isinstance(n.targets[0], ast.Name) and src(n.value) == "self.m"]
+    mdefs += [n.target.id for n in ast.walk(fn) if isinstance(n, ast.AnnAssign) and isinstance(n.target, ast.Name) and n.value is not None and src(n.value) == "self.m"]
+    if len(mdefs) == 1 and len(bounds) > 1:
+        partial = [b for b in bounds if b.replace(" ", "") != f"range({mdefs[0]}+1)"]
+        report.ob("C01.R5", "Aligner.locate: the first DP column is initialised over its whole length", not partial, facts={"loops": bounds}, loc=repo.loc(frag[0]),
+                  expected=f"every initialisation loop runs over range({mdefs[0]} + 1)",
+                  why=f"a loop over {partial[0]} leaves the cells behind it as the previous alignment left them: they are read when the band widens, so the result for a read depends on the reads before it")
+        return
     if len(bounds) != 1 or not re.fullmatch(r"range\((\w+) \+ 1\)", bounds[0]):
         raise Unrecognised(f"first column: loops {bounds} are not all 'range(m + 1)'", repo.loc(frag[0]))
     mname = re.fullmatch(r"range\((\w+) \+ 1\)", bounds[0]).group(1)
@@ -970,6 +980,8 @@ def r5_first_column(repo, report):
         for f_ in ("score", "cost", "origin"):
             if got.get(f_) not in want[f_]:
                 bad.append({"start_in_reference": sr, "start_in_query": sq, "sign(J0 - i)": d, "field": f_, "stored": got.get(f_), "expected one of": want[f_]})
+    report.ob("C01.R5", "Aligner.locate: the first DP column is initialised over its whole length", mdefs == [mname], facts={"loops": bounds, "length": mdefs}, loc=repo.loc(frag[0]), expected=f"every initialisation loop runs over range(m + 1), m = self.m",
+              why="" if mdefs == [mname] else f"the loops run to {mname}, which is not the adapter length self.m")
     report.ob("C01.R5", "Aligner.locate: first DP column", not bad and n >= 8, facts={"paths": n, "problems": bad[:3]}, cases=n, loc=repo.loc(frag[0]),
               expected="score 0 iff the adapter's start may be skipped, else i * deletion score; cost/origin per the four documented cases",
               why=(f"with start_in_reference={bad[0].get('start_in_reference')}, start_in_query={bad[0].get('start_in_query')} cell i gets {bad[0].get('field')} = {bad[0].get('stored')}, expected {bad[0].get('expected one of')}: skipped adapter bases are not charged (or charged although free), so scores of partial matches at the read start are wrong" if bad else ""))
